@@ -58,7 +58,8 @@ func execOp(op string) result {
 	case "d":
 		run = func() (string, string) { return execD(f), "" }
 	case "sr":
-		run = func() (string, string) { return sx.ExecSR(f), "" }
+		call := sx.PrepSR(f) // parsed outside the measured window
+		run = func() (string, string) { return call(), "" }
 	case "j":
 		run = func() (string, string) { return execJ(f), "" }
 	case "m":
@@ -893,6 +894,16 @@ func wLayout(p []sx.WOp) []prefixPos {
 	return pos
 }
 
+func constChunks(c, n int) string {
+	k := n/c + 2
+	s := make([]string, k)
+	for i := range s {
+		s[i] = strconv.Itoa(c)
+	}
+
+	return strings.Join(s, ",")
+}
+
 func randChunks(rng *hx.Rng, n int) string {
 	switch rng.Intn(6) {
 	case 0:
@@ -1005,7 +1016,9 @@ func oracle(r *hx.Run, op string, res result, mut string) {
 	}
 	short := op
 	if len(short) > 600 {
-		short = short[:600] + "..."
+		// long inputs are random data reproducible from the seed and the case number: keep the head (chunks,
+		// prefix) and the tail (the program)
+		short = short[:400] + " ...(" + strconv.Itoa(len(op)) + " chars)... " + short[len(short)-200:]
 	}
 	switch {
 	case res.answer == "crash" || res.answer == "timeout":
@@ -1031,8 +1044,15 @@ func oracle(r *hx.Run, op string, res result, mut string) {
 		}
 	}
 	k := uint64(64)
-	if f[0] == "x" || f[0] == "m" {
+	switch f[0] {
+	case "x", "m":
 		k = 256
+	case "sr":
+		// the stream readers may allocate 5 bytes per byte of data + 16 KiB (C02_stream_alloc_linear); the
+		// harness adds the hex of the values read and the answer line (4 per byte): a bound of 16 per byte
+		// separates "proportional to the data" from "proportional to a length field" already for a prefix
+		// of 1 MiB in front of 16 KiB of data
+		k = 16
 	}
 	if f[0] == "d" {
 		// a sequence of items that may consume nothing iterates (and pays the fixed per-item cost) as often as
@@ -1131,6 +1151,7 @@ var corpus = []string{
 	"sr - 0000000001000000aa bws u64",
 	"sr - 00 bytes -1",
 	"sr 2,2,2,2 0400000001020304 ows u32 id",
+	"sr - 00 bytes 1073741824",
 	"j J1 0 " + sJ1 + " | { \"62 \"616263 }",
 	"j J1 0 " + sJ1 + " | { \"62 N }",
 	"j J3 0 " + sJ3 + " | { \"6e756d73 #7 }",
@@ -1262,6 +1283,59 @@ func main() {
 				}
 			}
 		}
+	}
+
+	// (2b) a length prefix far above what the stream holds, in front of enough real data to get the reader
+	// past its first 16 KiB: the allocation must follow the delivered data, not the prefix
+	nBig := 240
+	if scale > 1 {
+		nBig = 720
+	}
+	for i := 0; i < nBig; i++ {
+		rng, _ := r.Rng.Fork()
+		denoted := hx.Pick(rng, []int{1 << 20, 1<<20 + 1, 4 << 20, 64 << 20, 1 << 28, 1 << 30})
+		actual := hx.Pick(rng, []int{16384, 16385, 20000, 32768, 40000, 65536, 16383, 8000})
+		if i%12 == 11 {
+			denoted = actual // the honest stream of that size, for contrast
+		}
+		lp := hx.Pick(rng, []string{"u32", "u64"})
+		var data []byte
+		var prog string
+		switch i % 4 {
+		case 0:
+			prog = "bytes " + strconv.Itoa(denoted)
+		case 1:
+			prog = "bws " + lp
+			data = make([]byte, sx.LPWidth(lp))
+			putLE(data, 0, len(data), uint64(denoted))
+		case 2:
+			prog = "obj " + strconv.Itoa(denoted) + " id"
+		default:
+			prog = "ows " + lp + " " + hx.Pick(rng, []string{"id", "id", "half"})
+			data = make([]byte, sx.LPWidth(lp))
+			putLE(data, 0, len(data), uint64(denoted))
+		}
+		data = append(data, rbytes(rng, actual, actual)...)
+		var chunks string
+		switch (i / 4) % 4 {
+		case 0:
+			chunks = "-"
+		case 1:
+			if actual > 20000 {
+				chunks = constChunks(hx.Pick(rng, []int{2, 3}), len(data))
+			} else {
+				chunks = constChunks(1, len(data))
+			}
+		case 2:
+			chunks = constChunks(hx.Pick(rng, []int{7, 251, 4099, 16381}), len(data))
+		default:
+			c := make([]int, rng.Range(4, 40))
+			for j := range c {
+				c[j] = hx.Pick(rng, []int{0, 1, 5, 100, 4096, 16384, 16385, 30000})
+			}
+			chunks = sx.ShowChunks(c)
+		}
+		b.emit("sr "+chunks+" "+hx.Hex(data)+" "+prog, "big-prefix")
 	}
 
 	// (3) serix.Decode of catalogue types (oracle only), SerializableOrderedMap, typeutils
